@@ -97,6 +97,29 @@ class _FakeSock:
         return len(data)
 
 
+POISONED = []      # reasons; once a handler of this process hangs, process-wide state (locks, singletons) may be stuck with it
+HANG_S = 20        # a handler that has not finished with a chunk after this many (real) seconds is reported as hanging
+
+
+def _watchdog_call(fn):
+    """run fn() in a helper thread; returns (result, exception name, hung).  A handler that blocks for ever (a lock that is never
+    released, a read that never returns) must show up as an observation, not stop the check."""
+    import threading
+    box = {}
+
+    def run():
+        try:
+            box["res"] = fn()
+        except Exception as ex:       # noqa: BLE001
+            box["exc"] = ex
+    th = threading.Thread(target=run, daemon=True)
+    th.start()
+    th.join(HANG_S)
+    if th.is_alive():
+        return None, None, True
+    return box.get("res"), box.get("exc"), False
+
+
 class _LoopSock:
     """A blocking scripted socket for a handler whose serving loop runs in its own thread, with a strict hand-off: the driver
     queues one item (bytes, the idle time-out marker, or b"" = the peer closed) and waits until the handler has consumed it and
@@ -111,6 +134,7 @@ class _LoopSock:
         self.items = collections.deque()
         self.waiting = False
         self.dead = False
+        self.hung = False
         self.raised = ""
 
     def recv(self, n):
@@ -146,7 +170,10 @@ class _LoopSock:
                 return True
             self.items.append(item)
             self.cv.notify_all()
-            ok = self.cv.wait_for(lambda: self.dead or (self.waiting and not self.items), timeout=60)
+            ok = self.cv.wait_for(lambda: self.dead or (self.waiting and not self.items), timeout=HANG_S)
+            if not ok:
+                self.hung = True          # the handler neither came back for more input nor left its loop: it hangs
+                POISONED.append("threaded handler")
         return ok
 
 
@@ -193,6 +220,8 @@ class SyncTcp(_Base):
         self.writes = []
         if sock.dead:
             return {"writes": [], "raised": "", "closed": 1}
+        if sock.hung:
+            return {"writes": [], "raised": "HANG", "closed": 0}
         # an empty chunk is not a TCP event; it stands for an idle period in which recv() times out
         ok = sock.push(bytes(data) if len(data) else _LoopSock.TIMEOUT)
         raised, sock.raised = sock.raised, ""
@@ -202,9 +231,9 @@ class SyncTcp(_Base):
 
     def close(self):
         for c, (h, sock, th) in self.h.items():
-            if not sock.dead:
+            if not sock.dead and not sock.hung:
                 sock.push(b"")            # the peer closes: recv() returns b"" and the loop ends
-            th.join(5)
+            th.join(5 if not sock.hung else 0.01)
 
 
 class SyncSerial(_Base):
@@ -248,6 +277,8 @@ class SyncSerial(_Base):
             return {"writes": [], "raised": raised, "closed": 0, "note": "serving loop ended"}
         if not len(data):
             return {"writes": [], "raised": "", "closed": 0}      # an idle serial line: read() returns nothing, the loop just goes on
+        if sock.hung:
+            return {"writes": [], "raised": "HANG", "closed": 0}
         ok = sock.push(bytes(data))
         raised, sock.raised = sock.raised, ""
         if not ok:
@@ -260,7 +291,7 @@ class SyncSerial(_Base):
             with self.sock.cv:
                 self.sock.items.append(b"")
                 self.sock.cv.notify_all()
-        self.th.join(5)
+        self.th.join(5 if not self.sock.hung else 0.01)
 
 
 class SyncUdp(_Base):
@@ -276,9 +307,14 @@ class SyncUdp(_Base):
         self.writes = []
         raised = ""
         sock = _FakeSock(self, conn)
-        try:
-            S.ModbusDisconnectedRequestHandler((bytes(data), sock), ("peer", conn), self.srv)
-        except Exception as ex:      # socketserver.handle_error confines it to this request
+        if getattr(self, "hung", False):
+            return {"writes": [], "raised": "HANG", "closed": 0}
+        _r, ex, hung = _watchdog_call(lambda: S.ModbusDisconnectedRequestHandler((bytes(data), sock), ("peer", conn), self.srv))
+        if hung:
+            self.hung = True          # a single-threaded UDP server is stuck in this request for good
+            POISONED.append("udp handler")
+            return {"writes": list(self.writes), "raised": "HANG", "closed": 0}
+        if ex is not None:           # socketserver.handle_error confines it to this request
             raised = "confined:" + type(ex).__name__
         return {"writes": list(self.writes), "raised": "" if raised.startswith("confined:") else raised,
                 "closed": 0, "note": raised}
@@ -507,8 +543,9 @@ def build_server_context(cfg, units):
     """units = [[uid, ctxcfg], ...] -> (ModbusServerContext, {uid: {blockid: block}})"""
     blocks = {}
     ctxs = {}
+    shared = {}        # equal start values -> one list object handed to several blocks, also across units (dm.build_block)
     for uid, c in units:
-        ctx, b = dm.build_context(c)
+        ctx, b = dm.build_context(c, shared=shared)
         ctxs[uid] = ctx
         blocks[uid] = b
     if cfg["single"]:
